@@ -12,7 +12,8 @@ CFG = {
             "but legal spellings, ~1/3 of the files refused for one bad field or line); each file gets a lookup history with heavy "
             "repetition on a cache of 1..64 entries, or on the engine's own constructor and cache size with more distinct keys than it "
             "holds, every key asked again after its eviction; queries hit the rules' boundaries (names, 4- and 16-byte address forms, "
-            "ports lo-1/lo/hi/hi+1). distinct = distinct op line; non-trivial = a rule file was loaded or refused, or a lookup was "
+            "ports lo-1/lo/hi/hi+1) and go through the real aclEngine.handle on an AddrEx whose ResolveInfo takes every shape: absent; present with "
+            "v4 only / v6 only / both / neither; and each of these with Err set (A ok + AAAA failed, the reverse, total failure). distinct = distinct op line; non-trivial = a rule file was loaded or refused, or a lookup was "
             "decided by a rule (not by the default)",
     "trusted_base": [
         "hashicorp/golang-lru contract: Get returns only what was Added under that key; Get and Add are atomic (its mutex)",
@@ -27,6 +28,9 @@ CFG = {
         "and population with the LRU's eviction victim passed to the model) and by the regenerated constant aclCacheSize",
     ],
     "assumptions": [
+        "engine level: the lookup is built from the request's name and EVERY address its ResolveInfo carries, whether or not "
+        "ResolveInfo.Err is set (interface.go: a resolution can carry an error and addresses); theorem engine_consults_every_address, "
+        "model-free oracle `handle vs Match on the full HostInfo`",
         "the eviction victim of the LRU is an input of the model (observed on the real cache by the harness); theorems hold for every choice",
         "concurrent Match calls: the atomic steps are Cache.Get and Cache.Add; the rule list is immutable after Compile",
         "a port specification of 0 alone (or 0-0) means `any port` also after the D8 repair (DESIGN section 7: not claimed otherwise)",
